@@ -69,7 +69,9 @@ class FloatList(MetaHandlerGenerator):
         return random.choice(self.elements)
 
     def __class_getitem__(cls, args):
-        return FloatList(*args)
+        # FloatList[[a, b, c]] hands the list over as it is, FloatList[a, b, c] a tuple, FloatList[a] the bare element: the
+        # refinement takes ONE argument, the collection of its options
+        return FloatList(args if isinstance(args, list) else list(args) if isinstance(args, tuple) else [args])
 
     def __repr__(self):
         return f"[{self.elements}]"
